@@ -612,14 +612,17 @@ def parse_tree_to_objgraph(
                 # with matched concrete meta-class down the inheritance tree.
                 # Abstract meta-class should never be instantiated.
                 if len(node) > 1:
+                    # The result is the first common/abstract rule reference.
+                    # Surrounding match rules are used only for parsing.
+                    for n in node:
+                        if (
+                            type(n) is not Terminal
+                            and n.rule._tx_class._tx_type is not RULE_MATCH
+                        ):
+                            return process_node(n)
                     try:
                         return process_node(
-                            next(
-                                n
-                                for n in node
-                                if type(n) is not Terminal
-                                and n.rule._tx_class is not RULE_MATCH
-                            )
+                            next(n for n in node if type(n) is not Terminal)
                         )  # noqa
                     except StopIteration:
                         # All nodes are match rules, do concatenation
